@@ -329,11 +329,11 @@ func (e *emitter) declBitop(op Op, w int, fn string) {
 		fmt.Fprintf(&e.sb, "(assert (forall ((a Int) (b Int)) (! (=> %s (and (<= 0 (%s a b)) (<= (%s a b) a) (<= (%s a b) b))) :pattern ((%s a b)))))\n", rng, fn, fn, fn, fn)
 	case OBxor:
 		fmt.Fprintf(&e.sb, "(assert (forall ((a Int) (b Int)) (! (=> %s (and (<= 0 (%s a b)) (<= (%s a b) (+ a b)) (<= (%s a b) %s) (= (= (%s a b) 0) (= a b)))) :pattern ((%s a b)))))\n", rng, fn, fn, fn, max, fn, fn)
-		if w == 8 {
-			// bytes: the canonical order of the two operands depends on the names of bound variables, so the same
-			// quantified statement can carry them in either order; exclusive or is commutative
-			fmt.Fprintf(&e.sb, "(assert (forall ((a Int) (b Int)) (! (= (%s a b) (%s b a)) :pattern ((%s a b)))))\n", fn, fn, fn)
-		}
+	}
+	if w == 8 {
+		// bytes: the canonical order of the two operands depends on creation order and on the names of bound variables,
+		// so the same statement can carry them in either order; the three operators are commutative
+		fmt.Fprintf(&e.sb, "(assert (forall ((a Int) (b Int)) (! (= (%s a b) (%s b a)) :pattern ((%s a b)))))\n", fn, fn, fn)
 	}
 }
 
